@@ -17,7 +17,7 @@ BASE_DEFS = ['-DSEXP_USE_DL=1', '-DSEXP_USE_INTTYPES=0', '-DSEXP_USE_NTPGETTIME=
 
 
 def inc_flags():
-    return ['-I', os.path.join(REPO, 'include'), '-I', os.path.join(HARNESS, 'include'), '-I', HARNESS]
+    return ['-I', os.path.join(REPO, 'include'), '-I', os.path.join(HARNESS, 'include'), '-I', HARNESS, '-iquote', REPO]
 
 
 BACKENDS = {
@@ -88,6 +88,7 @@ class Run:
 
     # ---------------------------------------------------------------- builds
     def resolve(self, unit):
+        unit = unit.split('|', 1)[0]
         kind, _, path = unit.partition(':')
         if kind == 'repo':
             return os.path.join(REPO, path)
@@ -112,7 +113,8 @@ class Run:
             src = self.cbmc_source(unit, src)
             out = os.path.join(self.work, 'u_%s.gb' % hashlib.md5(repr(key).encode()).hexdigest()[:12])
             extra_inc = ['-I', self.src_dirs[src]] if src in self.src_dirs else []
-            cmd = ['goto-cc'] + inc_flags() + extra_inc + BASE_DEFS + ['-D%s=%s' % kv for kv in unit_defs.items()] + \
+            own = ['-D' + d for d in unit.split('|', 1)[1].split(',')] if '|' in unit else []
+            cmd = ['goto-cc'] + inc_flags() + extra_inc + BASE_DEFS + own + ['-D%s=%s' % kv for kv in unit_defs.items()] + \
                   ['-include', os.path.join(HARNESS, 'prelude.h'), '-c', src, '-o', out]
             r = subprocess.run(cmd, capture_output=True, text=True)
             if r.returncode != 0:
@@ -146,6 +148,15 @@ class Run:
         self.src_dirs[out] = os.path.dirname(src)
         return out
 
+    def function_names(self, gb):
+        r = subprocess.run(['goto-instrument', '--list-goto-functions', gb], capture_output=True, text=True)
+        out = []
+        for line in r.stdout.splitlines():
+            line = line.strip()
+            if line and not line.startswith('Reading'):
+                out.append(line.split(' ', 1)[0])
+        return out
+
     def build_query(self, q, witness=True):
         qdir = os.path.join(self.work, 'q_' + re.sub(r'[^A-Za-z0-9_.-]', '_', q.name))
         os.makedirs(qdir, exist_ok=True)
@@ -175,22 +186,40 @@ class Run:
         r = subprocess.run(['goto-cc'] + real + [hgb, '-o', allgb], capture_output=True, text=True)
         if r.returncode != 0:
             raise RuntimeError('link failed for %s:\n%s' % (q.name, r.stderr[-3000:]))
+        # (R5) cut functions lose their bodies; then every chibi function that has no body (cut, or simply not
+        # linked into this harness) gets an assert-false-assume-false body, so that reaching code outside the
+        # encoded units is a reported failure instead of a silently nondeterministic call
         if q.cuts:
             cut = os.path.join(qdir, 'cut.gb')
             rx = '|'.join(q.cuts)
-            cmd = ['goto-instrument', '--generate-function-body', '^(%s)$' % rx,
-                   '--generate-function-body-options', 'assert-false-assume-false', allgb, cut]
-            r = subprocess.run(cmd, capture_output=True, text=True)
-            if r.returncode != 0:
-                raise RuntimeError('goto-instrument cut failed:\n' + r.stderr[-2000:] + r.stdout[-2000:])
-            allgb = cut
+            # bodies of cut functions are dropped first, then regenerated as assert-false-assume-false
+            names = self.function_names(allgb)
+            import re as _re
+            crx = _re.compile('^(%s)$' % rx)
+            hit = [n for n in names if crx.match(n)]
+            cur = allgb
+            if hit:
+                o = os.path.join(qdir, 'cut0.gb')
+                cmd = ['goto-instrument'] + sum([['--remove-function-body', f] for f in hit], []) + [cur, o]
+                r = subprocess.run(cmd, capture_output=True, text=True)
+                if r.returncode != 0:
+                    raise RuntimeError('goto-instrument cut failed:\n' + r.stderr[-2000:] + r.stdout[-2000:])
+                cur = o
+            allgb = cur
+        nb = os.path.join(qdir, 'nobody.gb')
+        cmd = ['goto-instrument', '--generate-function-body', '(sexp_|json_|analyze|generate|simplify|finalize|kit_).*',
+               '--generate-function-body-options', 'assert-false-assume-false', allgb, nb]
+        r = subprocess.run(cmd, capture_output=True, text=True)
+        if r.returncode != 0:
+            raise RuntimeError('goto-instrument generate-function-body failed:\n' + r.stderr[-2000:] + r.stdout[-2000:])
+        allgb = nb
         return qdir, allgb
 
     # ---------------------------------------------------------------- cbmc
     def cbmc_cmd(self, q, allgb, backend):
         cmd = ['cbmc', allgb, '--function', q.entry, '--unwind', str(q.unwind), '--object-bits', str(q.object_bits),
                '--no-malloc-may-fail', '--drop-unused-functions', '--trace', '--trace-hex',
-               '--pointer-overflow-check']
+               '--pointer-overflow-check', '--max-field-sensitivity-array-size', '128']
         us = dict(LIBC_UNWIND)
         us.update(q.unwindset)
         cmd += ['--unwindset', ','.join('%s:%d' % kv for kv in us.items())]
@@ -419,7 +448,7 @@ class Run:
 
 
 # loops of harness/libc_models.c: word loops up to 40 words, byte loops up to 72 bytes (checked by unwinding assertions)
-LIBC_UNWIND = {'memmove.0': 41, 'memmove.1': 41, 'memmove.2': 73, 'memmove.3': 73, 'memcpy.0': 41, 'memcpy.1': 73,
+LIBC_UNWIND = {'kit_ctx_full.0': 64, 'memmove.0': 41, 'memmove.1': 41, 'memmove.2': 73, 'memmove.3': 73, 'memcpy.0': 41, 'memcpy.1': 73,
                'memset.0': 41, 'memset.1': 73}
 SIGN_RE = re.compile(r'\(sexp_sint_t\) ?([A-Za-z_][A-Za-z_0-9]*) < 0')
 RESIDUAL_RE = re.compile(r'\(sexp_sint_t\) ?\(?[A-Za-z_][A-Za-z_0-9]*\)? *(<|<=|>|>=) *0(?![0-9x.])')
